@@ -39,9 +39,14 @@ unsigned w_len;
 /* nondeterministic input of length <= VERIF_MAXLEN over the alphabet, in an exact-size block */
 static char *vr_input(unsigned *plen)
 {
-    unsigned n = nondet_uint(), i;
+    unsigned n, i;
     char *s;
+#ifdef VERIF_FIXLEN
+    n = VERIF_FIXLEN;                  /* constant: one unit per length */
+#else
+    n = nondet_uint();
     __CPROVER_assume(n <= VERIF_MAXLEN);
+#endif
     s = (char *) malloc(n + 1);
     for (i = 0; i < n; i++) {
         unsigned char k = nondet_uchar();
